@@ -851,6 +851,8 @@ impl<B: BitmapSlice> Bytes<usize> for VolatileSlice<'_, B> {
 
     fn store<T: AtomicAccess>(&self, val: T, addr: usize, order: Ordering) -> Result<()> {
         self.get_atomic_ref::<T::A>(addr).map(|r| {
+            #[cfg(vm_memory_verif)]
+            crate::verif::touch(r as *const T::A as usize, size_of::<T>(), true);
             r.store(val.into(), order);
             self.bitmap.mark_dirty(addr, size_of::<T>())
         })
